@@ -336,3 +336,15 @@ CUSTOM['pane.classes:_make_eq.<locals>.__eq__'] = _eq_instances
 CUSTOM['pane.classes:_make_ord.<locals>._pane_ord'] = _ord_instances
 CUSTOM['pane.classes:_make_hash.<locals>.__hash__'] = _hash_instances
 CUSTOM['pane.classes:_make_init.<locals>.from_dict_unchecked'] = _fdu_instances
+
+
+def _mc_instances(m):
+    out = []
+    fn = m.make_converter.inner_f if hasattr(m.make_converter, 'inner_f') else m.make_converter
+    for ty in TYPES:
+        for hs in HANDLER_SETS[:3]:
+            out.append((fn, ['ty', 'handlers'], (ty, hs), f'make_converter({_tyrepr(ty)}, {hs!r})'))
+    return out
+
+
+CUSTOM['pane.convert:make_converter'] = _mc_instances
